@@ -392,7 +392,7 @@ def run(rep, tier, rng):
             continue
         impl, model = vplib.eval_cases(rep, binary, "core", cs, IMPORTS, tag="c07ex%d" % prof, batch=60)
         pf, _ = vplib.decide(rep, cs, impl, model, pc, None, nontrivial,
-                             what="correspondence Core/Run2.v (run_exec2) vs BitMachine, %s build" % ("debug" if prof == 0 else "release"))
+                             what="correspondence Core/Run2.v (run_exec3) vs BitMachine, %s build" % ("debug" if prof == 0 else "release"))
         total_fail += pf
         for c in cs:
             t = cc.split_exec(impl.get(c.cid))["tag"]
